@@ -26,6 +26,7 @@ def main():
     checks = [pid]
     tier = "quick"
     label = k
+    demo_env = ""
     for i, a in enumerate(sys.argv):
         if a == "--checks":
             checks = sys.argv[i + 1].split(",")
@@ -33,15 +34,19 @@ def main():
             tier = sys.argv[i + 1]
         if a == "--as":
             label = sys.argv[i + 1]
+        if a == "--demo-rustflags":      # the demonstration needs a particular build (e.g. no BMI2); the suite runs with the default flags
+            demo_env = "RUSTFLAGS='%s' " % sys.argv[i + 1]
     out = os.path.join(wt, "OUT")
     patch = os.path.join(out, "mutant%s.diff" % k)
     demo = os.path.join(out, "demo%s.rs" % k)
     notes = os.path.join(out, "notes%s.md" % k)
     meta = {"property": pid, "mutant": label, "ran": []}
+    if demo_env:
+        meta["demo_env"] = demo_env.strip()
     sh("git checkout -- . && git clean -fdq -e OUT", cwd=wt)
     os.makedirs(os.path.join(wt, "tests"), exist_ok=True)
     shutil.copy(demo, os.path.join(wt, "tests", "demo.rs"))
-    rc, o = sh("bash -c 'cargo test --offline --test demo 2>&1 | tail -15; echo EXIT=${PIPESTATUS[0]}'", cwd=wt)  # a pipe, not a file: demos may lower RLIMIT_FSIZE
+    rc, o = sh("bash -c \"" + demo_env + "cargo test --offline --test demo 2>&1 | tail -15; echo EXIT=\\${PIPESTATUS[0]}\"", cwd=wt)  # a pipe, not a file: demos may lower RLIMIT_FSIZE
     clean_pass = "EXIT=0" in o
     meta["demo_passes_on_clean_tree"] = clean_pass
     os.remove(os.path.join(wt, "tests", "demo.rs"))
@@ -52,7 +57,7 @@ def main():
     meta["suite_passes_with_patch"] = suite_ok
     meta["suite_summary"] = o.strip().splitlines()[:4]
     shutil.copy(demo, os.path.join(wt, "tests", "demo.rs"))
-    rc, o = sh("bash -c 'cargo test --offline --test demo 2>&1 | tail -25; echo EXIT=${PIPESTATUS[0]}'", cwd=wt)
+    rc, o = sh("bash -c \"" + demo_env + "cargo test --offline --test demo 2>&1 | tail -25; echo EXIT=\\${PIPESTATUS[0]}\"", cwd=wt)
     meta["demo_fails_with_patch"] = "EXIT=0" not in o
     meta["demo_output_tail"] = o.strip().splitlines()[-8:]
     sh("git checkout -- . && git clean -fdq -e OUT", cwd=wt)
